@@ -608,6 +608,12 @@ impl<'a> World<'a> {
                         let want_len = (old_len as u64).max(o as u64);
                         if k < 0 || k > len as i64 || l as u64 != want_len {
                             self.violate("C05", "partial-write-shape", "", format!("after failed write: offset {} (was {}), length {} (was {})", o, fh.off, l, old_len));
+                            // the library's own claim about the length is what the structure monitors must judge
+                            if let Some(f) = self.file_mut(fh.vol, fh.dir, &fh.name) {
+                                if let Content::Mem(d) = &mut f.data {
+                                    d.resize(l as usize, 0);
+                                }
+                            }
                             self.abort("partial write");
                         } else {
                             let k = k as usize;
